@@ -78,18 +78,24 @@ Definition holds (c : case) : bool :=
 
 (* class of the case, consulted when the spec fails.  Only failures of the logout-bookkeeping clauses
    (cl_pending, cl_ends) are ever excused; the cache clauses, cl_accept, cl_after, cl_request never.
-   At the first failing step: the first trigger of an OPEN class (1, 4) seen at or before that step, if
+   At the first failing step: the first trigger of an OPEN class (4, 5) seen at or before that step, if
    any (theorem c19_until_first_trigger: before it nothing fails); otherwise the trigger of the failing
-   step itself — class 2 or 3, which the repaired code never violates: they are listed as fixed, so a
+   step itself — class 1, 2 or 3, which the repaired code never violates: they are listed as fixed, so a
    regression is reported as a VIOLATION with this input. *)
 Fixpoint cls_from (w : world) (g : ghost) (vb : view) (tr : trace) (seen : nat) : nat :=
   match tr with
   | [] => 0
   | (o, ou, va) :: r =>
-      let seen' := match seen with O => open_trigger w g vb o | _ => seen end in
+      let here := open_trigger w g vb o ou in
+      let seen' := match seen with O => here | _ => seen end in
       match failing_clause w g vb o ou va with
       | O => cls_from w (ghost_step w g vb o ou va) va r seen'
-      | k => if 6 <=? k then match seen' with O => trigger w g vb o | _ => seen' end else 0
+      | k =>
+          if 6 <=? k then
+            (* class 4 at this very step only excuses the loss of the moot request: no session may change *)
+            if (seen =? 0) && (here =? 4) && negb (subjects_eqb (v_subjects va) (v_subjects vb)) then 0
+            else match seen' with O => trigger w g vb o ou | _ => seen' end
+          else 0
       end
   end.
 Definition cls (c : case) : nat :=
@@ -101,7 +107,7 @@ Definition run := run_cases agrees holds cls.
 Fixpoint explain_from (w : world) (g : ghost) (vb : view) (m o : trace) : list (bool * bool * nat * nat) :=
   match m, o with
   | (_, mou, mv) :: m', (op, ou, va) :: o' =>
-      (out_eqb mou ou, view_same mv va, failing_clause w g vb op ou va, trigger w g vb op)
+      (out_eqb mou ou, view_same mv va, failing_clause w g vb op ou va, trigger w g vb op ou)
         :: explain_from w (ghost_step w g vb op ou va) va m' o'
   | _, _ => []
   end.
